@@ -1,0 +1,114 @@
+//go:build verif
+
+package intcom
+
+// Contracts for the deductive checker in /verif (comment-only; compiled only under the verif tag).
+// RSA group elements and integers are abstract values; ExpI, Mul, Inv, ForgetOrder, LearnOrder are deterministic
+// functions of their arguments (x.ExpI(e) is x raised to the full signed integer e).
+
+//@ func NewCommitment
+//@   property C18
+//@   purefn
+//@   ensures (err == nil) == (v != nil)
+//@   ensures err == nil ==> result != nil && result.v == v
+
+//@ func NewWitness
+//@   property C18
+//@   purefn
+//@   ensures (err == nil) == (v != nil)
+//@   ensures err == nil ==> result != nil && result.r == v
+
+//@ func NewMessage
+//@   property C18
+//@   purefn
+//@   ensures (err == nil) == (v != nil)
+//@   ensures err == nil ==> result != nil && result.m == v
+
+//@ func (*Commitment).Value
+//@   property C18
+//@   purefn
+//@   ensures result == c.v
+
+//@ func (*Witness).Value
+//@   property C18
+//@   purefn
+//@   ensures result == w.r
+
+//@ func (*Message).Value
+//@   property C18
+//@   purefn
+//@   ensures result == m.m
+
+//@ func (*Commitment).Equal
+//@   property C18
+//@   purefn
+//@   ensures (c == nil || other == nil) ==> result == (c == other)
+//@   ensures (c != nil && other != nil) ==> result == (c.v.Equal(other.v) && c.v.IsUnknownOrder() == other.v.IsUnknownOrder())
+
+// The public key commits to m with witness r as s^m * t^r, with the FULL integers m and r as exponents.
+//@ func (*CommitmentKey).CommitWithWitness
+//@   property C18
+//@   purefn
+//@   ensures (message == nil || witness == nil) ==> err != nil
+//@   ensures err == nil ==> result != nil && result.v == k.s.ExpI(message.m).Mul(k.t.ExpI(witness.r)).ForgetOrder()
+
+//@ func (*CommitmentKey).Open
+//@   property C18
+//@   purefn
+//@   ensures (result == nil && commitment != nil) ==> k.s.ExpI(message.m).Mul(k.t.ExpI(witness.r)).ForgetOrder().Equal(commitment.v)
+//@   ensures (commitment != nil && res(k.CommitWithWitness(message, witness), 1) == nil && !k.s.ExpI(message.m).Mul(k.t.ExpI(witness.r)).ForgetOrder().Equal(commitment.v)) ==> result != nil
+
+// The trapdoor key commits as t^(m*lambda + r), i.e. the same value because s = t^lambda.
+//@ func (*TrapdoorKey).CommitWithWitness
+//@   property C18
+//@   purefn
+//@   ensures (message == nil || witness == nil) ==> err != nil
+//@   ensures err == nil ==> result != nil && result.v == res(t.t.LearnOrder(t.group), 0).ExpI(message.m.Mul(t.lambda.Lift()).Add(witness.r)).ForgetOrder()
+
+//@ func (*CommitmentKey).ReRandomise
+//@   property C18
+//@   ensures err == nil ==> result != nil && result.v == c.v.Mul(k.t.ExpI(witnessShift.r))
+
+//@ func (*CommitmentKey).Shift
+//@   property C18
+//@   ensures err == nil ==> result != nil && result.v == c.v.Mul(k.s.ExpI(message.m))
+
+//@ func (*CommitmentKey).CommitmentScalarOp
+//@   property C18
+//@   ensures err == nil ==> result != nil && result.v == c.v.ExpI(scalar) && k.s.Group().Contains(c.v)
+
+//@ func (*CommitmentKey).CommitmentOpInv
+//@   property C18
+//@   ensures err == nil ==> result != nil && result.v == c.v.Inv() && k.s.Group().Contains(c.v)
+
+//@ func (*CommitmentKey).WitnessScalarOp
+//@   property C18
+//@   ensures err == nil ==> result != nil && result.r == w.r.Mul(scalar)
+
+//@ func (*CommitmentKey).MessageScalarOp
+//@   property C18
+//@   ensures err == nil ==> result != nil && result.m == m.m.Mul(scalar)
+
+//@ func (*CommitmentKey).WitnessOpInv
+//@   property C18
+//@   ensures err == nil ==> result != nil && result.r == w.r.Neg()
+
+//@ func (*CommitmentKey).MessageOpInv
+//@   property C18
+//@   ensures err == nil ==> result != nil && result.m == m.m.Neg()
+
+// Keys are equal only if both generators are.
+//@ func (*CommitmentKey).Equal
+//@   property C18
+//@   purefn
+//@   ensures (k != nil && other != nil && result) ==> k.s.Equal(other.s) && k.t.Equal(other.t)
+
+// A key is only built from two distinct, non-trivial, torsion-free generators of the same group.
+//@ func newCommitmentKey
+//@   property C18
+//@   ensures err == nil ==> result != nil && result.s == s && result.t == t && !s.Equal(t) && !s.IsOne() && !t.IsOne() && s.IsTorsionFree() && t.IsTorsionFree()
+
+//@ func (*CommitmentKey).CommitmentGroup
+//@   property C18
+//@   purefn
+//@   ensures result == k.s.Group()
